@@ -238,6 +238,8 @@ def r1(rr, repo):
                 continue
             if p.outcome is not None and p.outcome[0] == 'loopcut':
                 continue   # unrolling bound reached: not a complete run
+            if any('exit_exc' in k and ((k.startswith('isnone(') and v is False) or (k.startswith(('is(', 'eq(')) and v is True)) for k, v in p.pc):
+                continue   # the injected fault is an error of the loop body, not what exit(reason, exc) raised (nothing called exit() in this scenario): the handler's test for that is false here
             reached = True
             w = f'{label}: {" ".join(tr)} => {p.outcome_text()}'
             ctor_ok = site != 'ctor' or kind is None
@@ -804,6 +806,30 @@ def r7(rr, repo):
             attrs |= {U(t) for t in n.targets if U(t).startswith('self.')}
     oob = {U(c.func.value) for c in q.calls_in(exitmsg) if isinstance(c.func, ast.Attribute) and c.func.attr == 'send_oob'}
     rr.ob('send_exit_msg announces on every endpoint MQ owns', bool(attrs) and attrs <= oob, mqm, exitmsg, witness=f'endpoints {sorted(attrs)} announced on {sorted(oob)}', key='exit-msg-all-endpoints')
+    # the handler MQ passes on is a plain adapter: EVERY announcement reaches the filter's on_exit_msg, which decides by its obey policy - an adapter that hands on the first one only drops the
+    # 'error' a filter must obey after a 'clean' one it rightly ignored
+    handed = {p_ for c in ends for p_ in ([U(a) for a in c.args] + [U(k.value) for k in c.keywords]) if 'on_exit_msg' in p_}
+    for name in sorted(handed):
+        defs = [n for n in walk_scope(mq_init) if isinstance(n, ast.Assign) and U(n.targets[0]) == name] + [n for n in walk_scope(mq_init) if isinstance(n, ast.FunctionDef) and n.name == name]
+        if name == 'on_exit_msg' or not defs:
+            rr.ob('the exit-message handler is handed on as it is', name == 'on_exit_msg', mqm, mq_init, witness=name, key=f'exit-adapter|{name}')
+            continue
+        d = defs[-1]
+        if isinstance(d, ast.Assign):
+            lam = [x for x in ast.walk(d.value) if isinstance(x, ast.Lambda)]
+            calls = [x for l in lam for x in ast.walk(l.body) if isinstance(x, ast.Call) and U(x.func) == 'on_exit_msg']
+            cond = [l for l in lam if isinstance(l.body, (ast.IfExp, ast.BoolOp)) and any(isinstance(x, ast.Call) and U(x.func) == 'on_exit_msg' for x in ast.walk(l.body))]
+            rr.ob('the adapter hands every announcement on to on_exit_msg (the only condition: a handler was given)', bool(calls) and not cond, mqm, d, witness=U(d.value)[:120], key=f'exit-adapter|{name}')
+        else:
+            calls = [x for x in ast.walk(d) if isinstance(x, ast.Call) and U(x.func) == 'on_exit_msg']
+            def conjuncts(t, p_):
+                try:
+                    e = ast.parse(t, mode='eval').body
+                except SyntaxError:
+                    return [(t, p_)]
+                return [(U(v), p_) for v in e.values] if p_ and isinstance(e, ast.BoolOp) and isinstance(e.op, ast.And) else [(t, p_)]
+            guards = [(t2, p2) for c_ in calls for t, p_ in q.effective_guards(c_, d) for t2, p2 in conjuncts(t, p_) if t2.replace(' ', '') not in ('on_exit_msgisnotNone', 'on_exit_msg')]
+            rr.ob('the adapter hands every announcement on to on_exit_msg (the only condition: a handler was given)', bool(calls) and not guards, mqm, d, witness=f'conditions: {guards}'[:140], key=f'exit-adapter|{name}')
     for c in ends:
         passed = [U(a) for a in c.args] + [U(k.value) for k in c.keywords]
         data_end = not any('metrics' in U(t) for n in ast.walk(mq_init) if isinstance(n, ast.Assign) and any(x is c for x in ast.walk(n.value)) for t in n.targets)
@@ -1039,3 +1065,24 @@ def r13(rr, repo):
                 if wide and not reraises:
                     bad = h
         rr.ob('what the out-of-band callback raises leaves the message layer', bad is None, zm, bad or c, witness=(U(bad.type) if bad is not None and bad.type is not None else 'no handler swallows it') + f' in {qualname(fn)}', key=f'oob-exception-propagates|{qualname(fn)}')
+
+
+@rule('C08.R14', "exit(reason, exc) ends the run by an error whatever LOOP_EXC says: with LOOP_EXC off the main loop logs an exception of the loop body and carries on - but what exit() raises is not an error "
+                 "of the loop body. exit() has set the stop event already, so a handler that logs it lets the loop end with nothing in flight: run() returns normally and the neighbours are told "
+                 "'clean'. exit() notes what it raises, and the handler lets exactly that through")
+def r14(rr, repo):
+    FIL = 'openfilter/filter_runtime/filter.py'
+    mod, ex = repo.find(f'{FIL}::Filter.exit')
+    _, run = repo.find(f'{FIL}::Filter.run')
+    raises = [n for n in walk_scope(ex) if isinstance(n, ast.Raise) and n.exc is not None]
+    notes = [n for n in walk_scope(ex) if isinstance(n, ast.Assign) and any(U(t).startswith('self.') for t in n.targets)]
+    noted = [n for n in notes if raises and (U(raises[-1].exc) in [U(t) for t in n.targets] or U(n.value) == U(raises[-1].exc))]
+    rr.ob('exit() notes what it is about to raise', bool(noted), mod, noted[0] if noted else (raises[-1] if raises else ex), witness=U(noted[0])[:80] if noted else 'nothing stored before the raise', key='exit-notes-what-it-raises')
+    attr = [U(t) for n in noted for t in n.targets if U(t).startswith('self.')][:1]
+    name = attr[0].split('.', 1)[1] if attr else None
+    hs = [h for t in ast.walk(run) if isinstance(t, ast.Try) and any(isinstance(c, ast.Call) and U(c.func).endswith('.loop_once') for st_ in t.body for c in ast.walk(st_)) for h in t.handlers if h.type is not None and U(h.type) == 'loop_exc']
+    rr.floor('handlers of the main loop that may log and carry on', len(hs), 1, mod, run)
+    for h in hs:
+        first = h.body[0] if h.body else None
+        ok = name is not None and isinstance(first, ast.If) and name in U(first.test) and h.name is not None and h.name in U(first.test) and any(isinstance(x, ast.Raise) and x.exc is None for x in first.body)
+        rr.ob("the handler lets what exit() raised through before it logs anything", ok, mod, first or h, witness=U(first.test)[:140] if isinstance(first, ast.If) else 'the handler starts with something else', key='loop-handler-lets-exit-through')
